@@ -135,7 +135,7 @@ Ltac weaken L := eapply ksound_weaken; [|apply L]; cbv beta; intros o [Hh Hg].
 Lemma cond_sound : forall c,
   asound (cond_acon c) (P c true) /\ asound (invert (cond_acon c)) (P c false).
 Proof.
-  induction c as [ |cs|cs|l|l|ls|op n|t|t|c0| |b0|po|n star|pre star post|po|kps|a IHa b IHb|c1|l1|n1 b1|c IH|a IHa b IHb|a IHa b IHb];
+  induction c as [ |cs|cs|l|l|ls|op n|t|t|c0| |b0|po|n star|pre star post|po|kps|a IHa b IHb|fl a IHa b IHb|c1|l1|n1 b1|c IH|a IHa b IHb|a IHa b IHb];
     cbn [cond_acon invert flip negb].
   - (* truthy *)
     split; apply asound_leaf.
@@ -289,6 +289,16 @@ Proof.
       destruct (holds a o) as [[|]|] eqn:Ea; try discriminate.
       * right. split; [exact Hh|apply c02_guard_join; tauto].
       * left. split; [exact Ea|apply c02_guard_join; tauto].
+  - (* (a) if f() else (b): the value is one of the two; whichever it is, its constraint (or its negation) holds *)
+    destruct IHa as [IHa1 IHa2]. destruct IHb as [IHb1 IHb2]. split.
+    + apply (asound_weaken _ (fun o => P a true o \/ P b true o)); [|apply asound_alt; assumption].
+      intros o [Hh Hg]. guard_parts Hg. simpl in Hh, Hok, Hpn.
+      apply andb_true_iff in Hok. apply orb_false_iff in Hpn. apply sps_split in Hss. simpl in Hap. apply orb_false_iff in Hap. simpl in Hgp. apply orb_false_iff in Hgp.
+      destruct fl; [left|right]; (split; [exact Hh|apply c02_guard_join; tauto]).
+    + apply (asound_weaken _ (fun o => P a false o \/ P b false o)); [|apply asound_alt; assumption].
+      intros o [Hh Hg]. guard_parts Hg. simpl in Hh, Hok, Hpn.
+      apply andb_true_iff in Hok. apply orb_false_iff in Hpn. apply sps_split in Hss. simpl in Hap. apply orb_false_iff in Hap. simpl in Hgp. apply orb_false_iff in Hgp.
+      destruct fl; [left|right]; (split; [exact Hh|apply c02_guard_join; tauto]).
   - (* assert_is_instance *)
     split; apply asound_leaf.
     + weaken (isinstance_pos_sound c1). guard_parts Hg. simpl in Hh. injection Hh as Hh'.
@@ -459,6 +469,15 @@ Example generic_typeis_positive :
   narrow [plain (VGen (GList TIntE))] (CTypeIs [VGen (GList TStrE)]) true = [plain (VGen (GList TStrE))] /\
   c02_guard (CTypeIs [VGen (GList TStrE)]) (OList []) = true /\
   holds (CTypeIs [VGen (GList TStrE)]) (OList []) = Some true.
+Proof. vm_compute. repeat split; reflexivity. Qed.
+
+(* a union-valued condition: both branches stay inhabited by what can take them *)
+Example alternatives_example :
+  let V := [plain (VKnown ONone); plain (VTuple [(true, TIntE)]); plain (VKnown (OInt 1))] in
+  let c := CIfExp true (CIsInstance [CStr]) (CNot (CIsInstance [CStr])) in
+  narrow V c false = V /\ narrow V c true = V /\
+  holds c (OInt 1) = Some false /\ holds (CIfExp false (CIsInstance [CStr]) (CNot (CIsInstance [CStr]))) (OInt 1) = Some true /\
+  c02_guard c (OInt 1) = true.
 Proof. vm_compute. repeat split; reflexivity. Qed.
 
 Lemma narrow_keeps_value_refuted : ~ narrow_keeps_value_full_statement.
